@@ -37,24 +37,87 @@ class FakePdftk(object):
         return R()
 
 
-def fdf_entries(data):
-    """entries between the FDF header and footer, one per line as habutax writes them"""
-    text = data
-    a = text.index(b"/Fields [") + len(b"/Fields [")
-    b = text.rindex(b"\n] >> >>")
-    body = text[a:b]
-    return body.split(b"\n<< /T (")
+PDF_WS = b"\x00\t\n\x0c\r "
+
+
+def scan_fields(data):
+    """the field dictionaries of the /Fields array, each as its bytes from "<<" to the matching ">>".  Only finds the
+    boundaries (strings are skipped over: a backslash hides the next byte, parentheses nest); PdfString.tla decodes them.
+    Returns None when the array cannot be delimited."""
+    try:
+        i = data.index(b"/Fields") + len(b"/Fields")
+    except ValueError:
+        return None
+    n = len(data)
+
+    def ws(j):
+        while j < n and data[j] in PDF_WS:
+            j += 1
+        return j
+    i = ws(i)
+    if i >= n or data[i:i + 1] != b"[":
+        return None
+    i += 1
+    out = []
+    while True:
+        i = ws(i)
+        if i >= n:
+            return None
+        if data[i:i + 1] == b"]":
+            return out
+        if data[i:i + 2] != b"<<":
+            return None
+        start, depth = i, 0
+        while i < n:
+            c = data[i:i + 1]
+            if c == b"(":
+                d, i = 1, i + 1
+                while i < n and d > 0:
+                    c2 = data[i:i + 1]
+                    if c2 == b"\\":
+                        i += 1
+                    elif c2 == b"(":
+                        d += 1
+                    elif c2 == b")":
+                        d -= 1
+                    i += 1
+                continue
+            if data[i:i + 2] == b"<<":
+                depth += 1
+                i += 2
+                continue
+            if data[i:i + 2] == b">>":
+                depth -= 1
+                i += 2
+                if depth == 0:
+                    break
+                continue
+            i += 1
+        if depth != 0:
+            return None
+        out.append(data[start:i])
 
 
 def split_entries(data):
-    a = data.index(b"/Fields [") + len(b"/Fields [")
-    b = data.rindex(b"\n] >> >>")
-    body = data[a:b]
-    if not body:
-        return []
-    parts = body.split(b"\n<< /T (")
-    out = [parts[0]] + [b"<< /T (" + p for p in parts[1:]]
-    return out
+    got = scan_fields(data)
+    if got is None:
+        raise common.MachineryError("cannot find the /Fields array of the form-data file")
+    return got
+
+
+def whole_array(data):
+    """everything between the "[" after /Fields and the last "]" of the file (used for a file with ONE entry, so that a
+    string that swallows or sheds bytes is judged by the specification and not by the splitter)"""
+    a = data.index(b"[", data.index(b"/Fields")) + 1
+    return data[a:data.rindex(b"]")]
+
+
+def entry_name(e):
+    """field name of an entry (only to pair it with the mapping; the specification decodes it again)"""
+    m = re.search(rb"/T\s*\(((?:\\.|[^\\()])*)\)", e, re.S)
+    if not m:
+        return None
+    return re.sub(rb"\\(.)", rb"\1", m.group(1), flags=re.S).decode("utf-8", "replace")
 
 
 def string_facts(tier):
@@ -76,21 +139,21 @@ def string_facts(tier):
             path = os.path.join(work, "s.fdf")
             p._create_fdf(data, path)
             raw = open(path, "rb").read()
-            a = raw.index(b"/Fields [") + len(b"/Fields [")
-            b = raw.rindex(b"\n] >> >>")
-            lines = raw[a:b].split(b"\n")
-            if len(lines) != len(chunk):
-                raise common.MachineryError("cannot split the form-data file into entries")
+            lines = scan_fields(raw)
+            if lines is not None and len(lines) == len(chunk):
+                for j, t in enumerate(chunk):
+                    facts.append({"sid": len(facts) + 1, "key": bytes_of("f%d" % (off + j)), "text": bytes_of(t), "entry": list(lines[j])})
+                continue
+            # the batch does not come apart into one dictionary per text: every text in a file of its own
             for j, t in enumerate(chunk):
-                facts.append({"sid": len(facts) + 1, "key": bytes_of("f%d" % (off + j)), "text": bytes_of(t), "entry": list(lines[j])})
+                p._create_fdf({"f%d" % (off + j): t}, path)
+                facts.append({"sid": len(facts) + 1, "key": bytes_of("f%d" % (off + j)), "text": bytes_of(t), "entry": list(whole_array(open(path, "rb").read()))})
         # adversarial field names
         for t in texts[1:400:7] + ["a(b)", "x\\"]:
             path = os.path.join(work, "k.fdf")
             p._create_fdf({t: "v"}, path)
             raw = open(path, "rb").read()
-            a = raw.index(b"/Fields [") + len(b"/Fields [")
-            b = raw.rindex(b"\n] >> >>")
-            facts.append({"sid": len(facts) + 1, "key": bytes_of(t), "text": bytes_of("v"), "entry": list(raw[a:b])})
+            facts.append({"sid": len(facts) + 1, "key": bytes_of(t), "text": bytes_of("v"), "entry": list(whole_array(raw))})
     finally:
         common.rmwork(work)
     return facts
@@ -182,8 +245,8 @@ def fill_facts(tier, seed_):
                     fobj = solver.forms[fname]
                     got = {}
                     for e in split_entries(fdf):
-                        m = re.match(rb"^<< /T \((.*?)\) /V \(", e, re.S)
-                        got[m.group(1).decode("utf-8", "replace") if m else "?%d" % len(got)] = e
+                        nm = entry_name(e)
+                        got[nm if nm is not None else "?%d" % len(got)] = e
                     fmap = {x.name(): x for x in fobj.fields()}
                     for pf in fobj.pdf_fields():
                         ln = pf.field_name if "." in pf.field_name else "%s.%s" % (fobj.name(), pf.field_name)
